@@ -68,7 +68,11 @@ THEOREMS = {
             "impAddArm_relabel", "impRemoveArm_relabel", "selectIdx_relabel", "nhoodRow_relabel", "treeLeafExp_relabel",
             "treeRow_relabel", "predictChunk_relabel", "impPredict_relabel", "validateTrain_relabel", "trainShapeErr_relabel",
             "train_relabel", "query_relabel", "step_relabel", "runHist_relabel", "runOuts_relabel", "init_relabel_bandit",
-            "relabel_end_to_end"],
+            "relabel_end_to_end",
+            "sel_rows", "radius_rows_filter", "nhoodRow_good", "radius_nhoodRow_perm", "radius_predictChunk_perm",
+            "radius_impPredict_perm", "radius_impFit_perm", "radius_impPartialFit_perm", "radius_row_order",
+            "idx_perm", "range_filterMap", "lsh_selectIdx_nodup", "lsh_rows_perm", "lsh_nhoodRow_perm", "lsh_predictChunk_perm",
+            "lsh_impPredict_perm", "lsh_impFit_perm", "lsh_impPartialFit_perm", "lsh_row_order"],
 }
 
 IMPORTS = {
@@ -92,7 +96,8 @@ IMPORTS = {
     "C18": ["MabModel.Props.C18"],
     "C19": ["MabModel.Props.C19"],
     "C20": ["MabModel.Props.C20", "MabModel.Props.C20b", "MabModel.Props.C20c", "MabModel.Props.C20d",
-            "MabModel.Props.C20e", "MabModel.Props.C20f", "MabModel.Props.C20g"],
+            "MabModel.Props.C20e", "MabModel.Props.C20f", "MabModel.Props.C20g",
+            "MabModel.Props.C20h", "MabModel.Props.C20i"],
 }
 
 
